@@ -16,6 +16,7 @@ import (
 type region struct{ lo, hi uintptr }
 
 type storeMonitor struct {
+	released     []region // objects handed back to a sync.Pool and not yet handed out again
 	regions      []region
 	maps         map[interface{}]bool
 	marked       bool
@@ -164,6 +165,7 @@ func (m *storeMonitor) report(fr *frame, pos string, what string) {
 }
 
 func (m *storeMonitor) onStore(fr *frame, instr *ssa.Store, addr *value) {
+	m.onAccess(fr, addr, "store")
 	if !m.marked {
 		return
 	}
@@ -230,3 +232,70 @@ func (m *storeMonitor) onAppendInPlace(fr *frame, dst []value) {
 }
 
 func (m *storeMonitor) onAllocSlice(s []value) {}
+
+// ---- pool discipline: an object must not be touched after it was Put -------
+
+func (m *storeMonitor) regionsOf(v value) []region {
+	var out []region
+	if p, ok := v.(*value); ok && p != nil {
+		a := uintptr(unsafe.Pointer(p))
+		out = append(out, region{a, a + cellSize})
+		switch c := (*p).(type) {
+		case structure:
+			if len(c) > 0 {
+				b := uintptr(unsafe.Pointer(&c[0]))
+				out = append(out, region{b, b + uintptr(len(c))*cellSize})
+			}
+		}
+	}
+	if it, ok := v.(iface); ok {
+		return m.regionsOf(it.v)
+	}
+	return out
+}
+
+func (m *storeMonitor) onPoolPut(v value) {
+	m.released = append(m.released, m.regionsOf(v)...)
+}
+
+func (m *storeMonitor) onPoolGet(v value) {
+	rs := m.regionsOf(v)
+	var keep []region
+	for _, r := range m.released {
+		drop := false
+		for _, x := range rs {
+			if x == r {
+				drop = true
+			}
+		}
+		if !drop {
+			keep = append(keep, r)
+		}
+	}
+	m.released = keep
+}
+
+// onAccess checks a load or store through addr against released objects.
+func (m *storeMonitor) onAccess(fr *frame, addr *value, what string) {
+	if len(m.released) == 0 || addr == nil {
+		return
+	}
+	a := uintptr(unsafe.Pointer(addr))
+	for _, r := range m.released {
+		if r.lo <= a && a < r.hi {
+			m.report2(fr, "access to an object after it was handed back to a sync.Pool ("+what+" in "+fr.fn.String()+")")
+			return
+		}
+	}
+}
+
+func (m *storeMonitor) report2(fr *frame, msg string) {
+	ex := fr.i.ex
+	mod, r := ex.model()
+	v := Violation{Msg: msg, Kind: "store"}
+	if r == Sat {
+		v.Replay = ex.replayVector(mod)
+		v.Obs = ex.renderObs(mod)
+	}
+	ex.viol = append(ex.viol, v)
+}
